@@ -62,7 +62,7 @@ func TestPropCrashRecovery(t *testing.T) {
 				return eng.Step{Op: eng.Op{Kind: "write", Points: pts},
 					Run:   func() error { return mc.F.Write(toModels(t, pts)) },
 					After: func(m *model.Store) { applyWrite(m, pts) },
-					Note:  func() {}}
+					Note:  func() { mc.NoteWrite(pts) }}
 			case "snapshot":
 				return eng.Step{Op: eng.Op{Kind: "snapshot"}, Run: func() error { return mc.F.Snapshot() }, After: func(m *model.Store) {}, Note: func() {}}
 			case "compact":
@@ -130,6 +130,7 @@ func TestPropCrashRecovery(t *testing.T) {
 				// perform one acknowledged write or delete, measuring the extent of its WAL record
 				seg0, sz0 := mc.NewestWALSegment()
 				before := mc.M.Clone()
+				hiddenBefore := mc.HiddenSnapshot()
 				ofDelete := rapid.Bool().Draw(t, "tornOfDelete") && mc.M.Count() > 0
 				if ofDelete {
 					ss, lo, hi := genDelete(t)
@@ -158,7 +159,7 @@ func TestPropCrashRecovery(t *testing.T) {
 					cut = sz1 - 1
 				}
 				hadDelete, hadTSM := mc.DeletesHitting > 0, mc.TSMFilesSeen
-				mc.TornWAL(before, seg1, cut, cut > sz0, ofDelete)
+				mc.TornWAL(before, hiddenBefore, seg1, cut, cut > sz0, ofDelete)
 				crashes++
 				if cut > sz0 && hadDelete && hadTSM {
 					nontrivialCrash = true
